@@ -35,14 +35,19 @@ pub struct PropDef {
 }
 
 #[cfg(feature = "full")]
+pub mod c01;
+#[cfg(feature = "full")]
 pub mod c02;
 #[cfg(feature = "full")]
 pub mod c03;
 pub mod c04;
 #[cfg(feature = "full")]
 pub mod c05;
+pub mod c06;
 #[cfg(feature = "full")]
 pub mod c09;
+#[cfg(feature = "full")]
+pub mod c16;
 #[cfg(feature = "full")]
 pub mod util;
 #[cfg(feature = "full")]
@@ -57,7 +62,7 @@ pub mod c14;
 pub mod c15;
 
 pub fn all() -> Vec<PropDef> {
-    let mut v = vec![c04::DEF];
+    let mut v = vec![c04::DEF, c06::DEF];
     #[cfg(feature = "full")]
     {
         v.extend(full());
@@ -67,5 +72,5 @@ pub fn all() -> Vec<PropDef> {
 
 #[cfg(feature = "full")]
 fn full() -> Vec<PropDef> {
-    vec![c02::DEF, c03::DEF, c05::DEF, c09::DEF, c11::DEF, c12::DEF, c13::DEF, c14::DEF, c15::DEF]
+    vec![c01::DEF, c02::DEF, c03::DEF, c05::DEF, c09::DEF, c11::DEF, c12::DEF, c13::DEF, c14::DEF, c15::DEF, c16::DEF]
 }
